@@ -106,7 +106,8 @@ Definition accepts (c : cfg) (f : frag) (m : mol) : bool :=
   else if c_cls c =? 2 then
     g_chic_eq (negb (zs_eqb (key c f) (hash_of c fs))) false false umi_ok (c_r c) (f_site f) (site_of (fs ++ m_ovf m))
   else
-    g_fragment_eq true true umi_ok (c_r c) (f_cell f) (f_strand f) (f_contig f) (f_site f) (f_end f)
+    (* a non-empty molecule has spanStart / spanEnd set (possibly to 0): has_valid_span = g_mol_span_ok true true *)
+    g_fragment_eq true (g_mol_span_ok true true) umi_ok (c_r c) (f_cell f) (f_strand f) (f_contig f) (f_site f) (f_end f)
                   (cell_of fs) (strand_of fs) (chrom_of fs) (start_of fs) (end_of fs).
 
 Definition full (c : cfg) (m : mol) : bool :=
